@@ -321,7 +321,20 @@ class C02(Prop):
         for seq in OPSEQS:
             m = ctx.fresh()
             tag = dict(history=''.join(seq))
-            for op in seq:
+            for k_, op in enumerate(seq):
+                if k_ == 1 and len(seq) == 3 and seq[0] == 'M':
+                    # a caller that consumes answers the way the library's own generator does: it rescales what it is handed in
+                    # place (model.synthetic_data with method='round'), after the bulk call has filled the cache.  Query answers
+                    # afterwards must still be those of the model.
+                    try:
+                        import numpy as _np
+                        st_ = _np.random.get_state()
+                        _np.random.seed(int(rng.randint(1 << 30)))
+                        m.synthetic_data(rows=7, method='round')
+                        _np.random.set_state(st_)
+                        tag = dict(tag, history=tag['history'] + '+generate(7 rows)')
+                    except Exception as e_:
+                        out.append(('interleaved-op-generate', False, dict(tag, raised='%s: %s' % (type(e_).__name__, e_))))
                 if op == 'P':
                     t = tuples[int(rng.randint(len(tuples)))]
                     ctx.check_projects(m, [t], 'interleaved-op-project', out, as_list=bool(rng.rand() < 0.3), extra=tag)
